@@ -76,7 +76,7 @@ fn cmd_plan(args: &[String]) -> i32 {
     let master: u64 = arg_val(args, "--seed").and_then(|s| s.parse().ok()).unwrap_or(1);
     let i: u64 = arg_val(args, "--index").and_then(|s| s.parse().ok()).unwrap_or(0);
     let (hist, crash_at) = if prop == "C08" { (i / 100_000, i % 100_000) } else { (i, 0) };
-    let mut plan = scen::gen(&prop, scen::run_seed(master, &prop, hist));
+    let mut plan = if prop == "C17" { scen::plan_for(master, &prop, i) } else { scen::gen(&prop, scen::run_seed(master, &prop, hist)) };
     if crash_at > 0 {
         plan.flags.push(format!("crash_at={}", crash_at));
     }
@@ -109,7 +109,7 @@ fn cmd_run(args: &[String]) -> i32 {
         }
         let i = from + k * step;
         k += 1;
-        let plan = scen::gen(&prop, scen::run_seed(master, &prop, i));
+        let plan = scen::plan_for(master, &prop, i);
         let o = runner::execute(&plan, false);
         if k <= twice {
             let o2 = runner::execute(&plan, false);
